@@ -83,14 +83,16 @@ def err_exit_blocks(f):
 
 def local_calls(F, f, name_rx=None):
     """real call sites in f whose callee is a crate-local fn (optionally name-filtered)"""
-    out = []
-    for bb in mirq.real_calls(f):
-        t = f.blocks[bb]['t']
-        tgt = t.get('resolved') if t.get('resolved') in F.fns else t.get('callee')
-        if tgt in F.fns:
-            if name_rx is None or re.search(name_rx, tgt):
-                out.append((bb, tgt))
-    return out
+    lc = f.__dict__.get('_local_calls')
+    if lc is None:
+        lc = []
+        for bb in mirq.real_calls(f):
+            t = f.blocks[bb]['t']
+            tgt = t.get('resolved') if t.get('resolved') in F.fns else t.get('callee')
+            if tgt in F.fns:
+                lc.append((bb, tgt))
+        f.__dict__['_local_calls'] = lc
+    return [(bb, tgt) for bb, tgt in lc if name_rx is None or re.search(name_rx, tgt)]
 
 
 def calls_to_fn(F, f, target_path):
@@ -98,11 +100,14 @@ def calls_to_fn(F, f, target_path):
 
 
 def callers(F, target_path):
-    out = []
-    for f in F.user_fns():
-        for bb in calls_to_fn(F, f, target_path):
-            out.append((f, bb))
-    return out
+    idx = F.__dict__.get('_callers_index')
+    if idx is None:
+        idx = {}
+        for f in F.user_fns():
+            for bb, tgt in local_calls(F, f):
+                idx.setdefault(tgt, []).append((f, bb))
+        F.__dict__['_callers_index'] = idx
+    return list(idx.get(target_path, []))
 
 
 def must_pass(f, via_blocks, targets, start=0):
